@@ -6,7 +6,7 @@ From TS Require Import Model.Lang.Swift Model.Lang.Python.
 From TS Require Proofs.C09Common Proofs.C09Recon Proofs.C09Refs Proofs.C09_KotlinFile Proofs.C09Witness Proofs.C09Final.
 From TS Require Proofs.C09_TypeScript Proofs.C09_Scala Proofs.C09_Python Proofs.C09_Swift Proofs.C09_Go Proofs.GoAcronyms Proofs.C09_GoAcr.
 From TS Require Import Model.Lang.Common Model.Collect Model.MultiFile Spec.C09MultiSpec.
-From TS Require Proofs.C14Front Proofs.C14Witness Proofs.C09Multi Proofs.C09MultiWitness.
+From TS Require Proofs.C14Front Proofs.C14Witness Proofs.C09Multi Proofs.C09MultiWitness Proofs.C09MultiTS.
 Import ListNotations.
 From TS Require Props.C09.
 
@@ -322,3 +322,23 @@ Goal Proofs.C09MultiWitness.wm_kt_text [] Proofs.C14Witness.ws_renamed Proofs.C1
   | Some t => contains_sub (lit "data class KPA2Renamed (") t | None => false end = true.
 Proof. exact Props.C09.C09_multi_renamed_import_kotlin_pin. Qed.
 Print Assumptions Props.C09.C09_multi_renamed_import_kotlin_pin.
+Goal forall (uc : unicode) (cfg : ts_config) (ho : list imported -> list imported) (arrivals : list (str * parsed)),
+    Proofs.C14Front.oracle_ok ho -> c9m_ids_wf arrivals = true ->
+    forall (b : str) (pd' : parsed), In (b, pd') (multi_crates ho arrivals) ->
+    forall (st : ts_state) (im : scoped) (text : str) (st' : ts_state),
+      ts_generate_multi uc cfg st im pd' = Ok (text, st') ->
+      exists ds : list ts_decl,
+        text = (ts_begin_file cfg ++ ts_write_imports im ++ List.concat (map ts_render_decl ds) ++ ts_end_file st')%list /\
+        Forall (fun d => (c09_is_def (ts_obs d) = true -> c9m_def_ok arrivals b [] (d_name (ts_obs d))) /\
+                         (forall r, In r (c09_decl_refs TypeScript (ts_obs d)) -> c9m_ref_ok arrivals b [] r)) ds.
+Proof. exact Props.C09.C09_multi_TypeScript. Qed.
+Print Assumptions Props.C09.C09_multi_TypeScript.
+Goal forall (uc : unicode) (cfg : ts_config) (ho : list imported -> list imported) (arrivals : list (str * parsed)),
+    Proofs.C14Front.oracle_ok ho -> c9m_ids_wf arrivals = true ->
+    forall (b : str) (pd' : parsed), In (b, pd') (multi_crates ho arrivals) ->
+    forall (it' : ritem) (d : ts_decl) (s1 s2 : ts_state),
+      In it' (items_of pd') -> ts_decl_of uc cfg it' s1 = Ok (d, s2) ->
+      (c09_is_def (ts_obs d) = true -> c9m_def_ok arrivals b [] (d_name (ts_obs d))) /\
+      (forall r, In r (c09_decl_refs TypeScript (ts_obs d)) -> c9m_ref_ok arrivals b [] r).
+Proof. exact Props.C09.C09_multi_TypeScript_item. Qed.
+Print Assumptions Props.C09.C09_multi_TypeScript_item.
